@@ -96,13 +96,15 @@ def gen_cases(seed, chunk, n, tier):
         static = rng.random() < 0.7
         dtype = rng.choice(["float64", "complex128"])
         keep = rng.choice([0.4, 0.7, 1.0])
+        shared = rng.random() < 0.25
         a, b, xa, xb = gen.rand_contractible(rng, sym, fermi=fermi, static=static, dtype=dtype, keep=keep,
-                                             max_ndim=4, pending=fermi and rng.random() < 0.4)
+                                             max_ndim=4, pending=fermi and rng.random() < 0.4,
+                                             share_objects=shared)
         prefuse = rng.random() < 0.4
         env = {"a": a, "b": b}
         steps = []
         an, bn = "a", "b"
-        meta = dict(sym=sym, fermi=fermi, static=static, ncon=len(xa), prefuse=prefuse)
+        meta = dict(sym=sym, fermi=fermi, static=static, ncon=len(xa), prefuse=prefuse, shared_index_objects=shared)
         orc = None
         # optionally pre-fuse free legs of a (and of b)
         if prefuse:
